@@ -184,3 +184,15 @@ Proof. exact holder_roundtrip. Qed.
 Print Assumptions C05_group_holder_rt.
 (* non-vacuity: Proofs/GroupP.v group_empty_body (an empty body is the two keys, 4 bytes for field 1000; a repeated group
    [full; empty; full] has the reported length; the holder with Some(empty) / [full; empty; full] round-trips). *)
+
+(* F-05b: REFUTED for the FloatValue / DoubleValue wrapper impls (types.rs `impl Message for f32 / f64`): -0.0 is written as
+   the empty message, exactly like +0.0, and reads back as +0.0 *)
+Theorem C05_wrapper_negzero_refuted :
+  wrapper_enc (Some MDouble) (VI 9223372036854775808) = [] /\ wrapper_enc (Some MDouble) (VI 0) = [] /\
+  wrapper_decode (Some MDouble) (mkR (wrapper_enc (Some MDouble) (VI 9223372036854775808)) 0) = OOk (VI 0) (mkR [] 0) /\
+  wrapper_enc (Some MFloat) (VI 2147483648) = [] /\
+  wrapper_decode (Some MFloat) (mkR (wrapper_enc (Some MFloat) (VI 2147483648)) 0) = OOk (VI 0) (mkR [] 0).
+Proof. exact wrapper_negzero_refuted. Qed.
+Print Assumptions C05_wrapper_negzero_refuted.
+(* the `== default` premises of C05_msg_rt exercised by entries that ARE defaults: Proofs/MsgRtP.v msg_roundtrip_default_entries
+   ({0: 0.0}, {7: 0.0}, {"": leaf} with key / value / both omitted on the wire). *)
